@@ -36,6 +36,8 @@ Restrict(db, hs) ==
 \* limit/offset windows pick rows by position: safety is a statement about the rows before the window
 Strip(s) == IF s.t = "query" THEN [s EXCEPT !.rows = <<>>] ELSE s
 SafeOn(stmt, hs, db) == BagEq(Eval(Strip(stmt), db), Eval(Strip(stmt), Restrict(db, hs)))
+\* Safe over a universe of databases (a sequence): the universally quantified db of the property, enumerated
+Safe(stmt, hs, dbs) == \A i \in DOMAIN dbs : SafeOn(stmt, hs, dbs[i])
 
 \* columns used through one table occurrence: by the clauses of its query context and the conditions of the joins
 \* of that context, addressed through the table itself or through the reference wrapping it
